@@ -782,6 +782,28 @@ func checkTool(c ToolCase) error {
 				}
 			}
 		}
+		// the same bytes in files whose names hold characters that mean something to a shell, a
+		// glob matcher, a format string or a URL parser, each next to decoys such a reading would
+		// pick instead: the argument names one file, literally
+		{
+			od := filepath.Join(dir, "odd")
+			os.MkdirAll(od, 0o755)
+			decoy := []byte{0x89, 'I', 'V', 'G', 0x00, 0xe1}
+			for _, n := range []string{"icon1.ivg", "icon.ivg", "icXYn.ivg", "a.ivg", "b.ivg", "icon%21.ivg", "icon!.ivg", "icon .ivg"} {
+				os.WriteFile(filepath.Join(od, n), decoy, 0o644)
+			}
+			for _, n := range []string{"icon[1].ivg", "ic*n.ivg", "ico?.ivg", "{a,b}.ivg", "icon%21.ivg", "icon%s.ivg", "icon .ivg", "icon\\.ivg", "#icon.ivg", "icon.ivg?x=1", "~icon.ivg", "$HOME.ivg"} {
+				f := filepath.Join(od, n)
+				if os.WriteFile(f, in, 0o644) != nil {
+					continue
+				}
+				stdout, serr := exec.Command(tool, f).Output()
+				if serr != nil || !bytes.Equal(stdout, want) {
+					return harness.Violatef("c11/tool-stdout", "disivg given the file name %q (next to decoy files a pattern reading of it would match) for input %d: differs from Disassemble of that file (%v)", n, i, serr)
+				}
+				os.WriteFile(f, decoy, 0o644) // a decoy itself for the names that follow
+			}
+		}
 		// the same file named through a symbolic link
 		link := src + ".link"
 		os.Remove(link)
@@ -808,7 +830,7 @@ func firstDiffAt(a, b []byte) int {
 	return n
 }
 
-var subTool = harness.Define("disivg-tool", "the cmd/disivg command built from the same tree: sequences of 2-4 inputs (generated streams of different lengths, some rejected; also valid graphics of 64 KiB to 200 kB) disassembled one after the other into the same -o file and to stdout; the file and stdout must equal decode.Disassemble of the current input, rejected inputs exit non-zero and leave the file alone; non-trivial = a shorter listing follows a longer one", checkTool)
+var subTool = harness.Define("disivg-tool", "the cmd/disivg command built from the same tree: sequences of 2-4 inputs (generated streams of different lengths, some rejected; also valid graphics of 64 KiB to 200 kB) disassembled one after the other into the same -o file and to stdout; the file and stdout must equal decode.Disassemble of the current input, rejected inputs exit non-zero and leave the file alone; each accepted input also from a named pipe, through symbolic links, and from files whose names hold glob/format/URL characters next to decoy files; non-trivial = a shorter listing follows a longer one", checkTool)
 
 func TestDisivgTool(t *testing.T) {
 	if os.Getenv("VERIF_DISIVG") == "" {
